@@ -217,6 +217,9 @@ void h_c04_register_set(void)
  * space), flags, callbacks present or not, addresses, types, constraint
  * kinds and limits, defaults, validator verdicts, table flags. */
 struct rb_ghost g_rb;
+#ifdef RB_TYPE_LIST
+static const RegisterType rb_type_list[] = { RB_TYPE_LIST, REG_TYPE_INVALID };
+#endif
 
 struct rb_tab {
   RegisterTable *t;
@@ -230,22 +233,18 @@ struct rb_tab {
 #define RB_AK_MEM 4u     /* area is memory-backed */
 
 /* Blocks have the constant size of the family's dimension (symbolic-size
- * heap objects make the queries explode); a list / an area's storage of the
- * chosen smaller size is placed either at the START or at the END of its
- * block (in_*_atend, nondeterministic), so that an access one element before
- * or behind it leaves the object in one of the two placements.  Writes into
- * the slack are caught in both placements by the assigns clauses. */
-#ifdef RB_NO_PLACE
+ * heap objects and symbolic placements make the queries explode).  A list of
+ * in_na < RB_NA areas leaves slack behind its terminator, but in_na == RB_NA
+ * is part of the family and there the terminator is the block's last element:
+ * a read behind the terminator or before the first element leaves the object.
+ * The same holds for register lists and for area storage (size == RB_SZ).
+ * Writes into slack are caught for every size by the assigns clauses. */
 #define RB_PLACE(blk, cap, len, atend) (blk)
-#else
-#define RB_PLACE(blk, cap, len, atend) ((blk) + ((atend) ? (cap) - (len) : 0))
-#endif
 
 static struct rb_tab rb_description(void)
 {
   struct rb_tab T;
   IN(uint32_t, in_na) IN(uint32_t, in_ne)
-  IN(_Bool, in_areas_atend) IN(_Bool, in_entries_atend)
   ASSUME(in_na <= RB_NA && in_ne <= RB_NE);
   RegisterArea *ablk = malloc((RB_NA + 1) * sizeof(RegisterArea));
   RegisterEntry *eblk = malloc((RB_NE + 1) * sizeof(RegisterEntry));
@@ -259,7 +258,7 @@ static struct rb_tab rb_description(void)
     if (i < in_na) {
       RegisterArea *a = &T.area[i];
       IN(uint32_t, in_abase) IN(uint32_t, in_asize) IN(uint16_t, in_aflags) IN(uint8_t, in_akind)
-      IN(uint32_t, in_afirst) IN(uint32_t, in_alast) IN(uint32_t, in_acount) IN(_Bool, in_amem_atend)
+      IN(uint32_t, in_afirst) IN(uint32_t, in_alast) IN(uint32_t, in_acount)
 #ifdef RB_FIXED_ASIZE
       in_asize = RB_SZ;
 #endif
@@ -290,6 +289,12 @@ static struct rb_tab rb_description(void)
       IN(uint8_t, in_etype) IN(uint64_t, in_edefault) IN(uint32_t, in_eaddr) IN(uint16_t, in_eflags)
       IN(uint8_t, in_echeck) IN(uint64_t, in_emin) IN(uint64_t, in_emax)
       ASSUME(in_etype <= REG_TYPE_FLOAT64 && in_echeck <= REGV_TYPE_CALLBACK);
+#ifdef RB_TYPE_LIST
+      /* variant with the register types fixed per index (RB_TYPE_LIST): the
+       * serialiser behind rds_serdes[type] and the register size are then
+       * constants for the symbolic execution */
+      in_etype = (uint8_t)rb_type_list[j];
+#endif
       e->type = (RegisterType)in_etype;
       ASSUME(RB_M64(in_eaddr) + RB_WORDS(e->type) <= 0xffffffffull);
       e->default_value.u64 = in_edefault;
@@ -329,8 +334,24 @@ static void rb_snapshot(const struct rb_tab *T)
     if (j <= T->ne)
       e0[j] = T->entry[j];
   g_rb.na = T->na; g_rb.ne = T->ne;
+  g_rb_na = T->na; g_rb_ne = T->ne;      /* terminator positions for the counters' contracts */
   g_rb.area0 = a0; g_rb.entry0 = e0;
 }
+
+/* the statement's postconditions of register_init, asserted after the call */
+#define RB_INIT_POST(t, r, be) do { \
+  CHECK(rb_init_verdict_ok(r, g_rb.init), "init: first violated rule and its offender, or success"); \
+  CHECK(IMPLIES(g_rb.init.code != REG_INIT_SUCCESS, !RB_INITIALISED(t)), "init: failure leaves the table uninitialised"); \
+  CHECK(IMPLIES(g_rb.init.code == REG_INIT_SUCCESS, \
+      RB_INITIALISED(t) && ((t)->flags & REG_TF_DURING_INIT) == 0 && (t)->areas == g_rb.na && (t)->entries == g_rb.ne), \
+      "init: success marks the table initialised and records its dimensions"); \
+  CHECK(RB_BE(t) == (be), "init: byte order kept"); \
+  CHECK(rb_description_same(t, g_rb.area0, g_rb.na, g_rb.entry0, g_rb.ne), "init: description unchanged"); \
+  CHECK(IMPLIES(g_rb.init.code == REG_INIT_SUCCESS, rb_table_wf(t)), \
+      "init: success leaves a well-formed table, every area records exactly its run of registers"); \
+  CHECK(IMPLIES(g_rb.init.code == REG_INIT_SUCCESS, rb_init_words_ok(t, g_rb.na, g_rb.ne, be)), \
+      "init: defaults loaded where areas load defaults, every other word zero"); \
+} while (0)
 
 /* C04: register_init on an arbitrary description of the family */
 void h_register_init(void)
@@ -340,14 +361,13 @@ void h_register_init(void)
   bool be = (T.t->flags & REG_TF_BIG_ENDIAN) != 0;
   rb_snapshot(&T);
   g_rb.init = rb_spec_first_violation(T.area, T.na, T.entry, T.ne, be);
-  register_init(T.t);
+  RegisterInit r = register_init(T.t);
+  RB_INIT_POST(T.t, r, be);
   VERIF_CANARY();
 }
 
-/* the same check without the contract machinery: the real call followed by
- * the clauses of register_init's contract as assertions (bounded model
- * checking of the whole stack; no frame check beyond the exact-size blocks
- * and the "unchanged" clauses) */
+/* the same check without the contract machinery (whole stack inlined, no
+ * frame check beyond the exact-size blocks and the "unchanged" clauses) */
 void h_register_init_plain(void)
 {
   GHOST_HAVOC();
@@ -355,17 +375,7 @@ void h_register_init_plain(void)
   bool be = (T.t->flags & REG_TF_BIG_ENDIAN) != 0;
   rb_snapshot(&T);
   g_rb.init = rb_spec_first_violation(T.area, T.na, T.entry, T.ne, be);
-  RegisterTable *t = T.t;
-  RegisterInit r = register_init(t);
-  CHECK(rb_init_verdict_ok(r, g_rb.init), "init: first violated rule and offender, or success");
-  CHECK(IMPLIES(g_rb.init.code != REG_INIT_SUCCESS, !RB_INITIALISED(t)), "init: failure leaves the table uninitialised");
-  CHECK(IMPLIES(g_rb.init.code == REG_INIT_SUCCESS,
-      RB_INITIALISED(t) && (t->flags & REG_TF_DURING_INIT) == 0 && t->areas == g_rb.na && t->entries == g_rb.ne),
-      "init: success marks the table initialised and records its dimensions");
-  CHECK(RB_BE(t) == be && t->area == T.area && t->entry == T.entry, "init: byte order and lists kept");
-  CHECK(rb_description_same(t, g_rb.area0, g_rb.na, g_rb.entry0, g_rb.ne), "init: description unchanged");
-  CHECK(IMPLIES(g_rb.init.code == REG_INIT_SUCCESS, rb_table_wf(t)), "init: success leaves a well-formed table");
-  CHECK(IMPLIES(g_rb.init.code == REG_INIT_SUCCESS, rb_init_words_ok(t, g_rb.na, g_rb.ne, be)),
-      "init: defaults loaded, every other word zero");
+  RegisterInit r = register_init(T.t);
+  RB_INIT_POST(T.t, r, be);
   VERIF_CANARY();
 }
